@@ -11,7 +11,7 @@ use std::rc::Rc;
 pub static ENGINE: Engine = Engine {
     prop: "C19",
     level: "model_checking",
-    rule: "explicit-state BFS over ALL pairs (A,B) of subsets of the b-bit universe (b=2: 256 states, b=3: 65536); every state is rebuilt on real BDDSets in a fresh environment by replaying its BFS path from the empty pair; from every state every operation insert(X,e), union/intersect/complement(X,Y) with (X,Y) in {(A,B),(B,A),(A,A),(B,B)}, empty, universe and the query contains(X,e) is executed on the real sets and then membership of EVERY element of BOTH sets is asked forwards and backwards and compared with the reference masks; plus every operation sequence up to depth 4 (5) for b=2 and 3 (4) for b=3 on one long-lived pair without cloning. distinct = distinct (state, operation) pairs executed + distinct long-lived sequences",
+    rule: "explicit-state BFS over ALL pairs (A,B) of subsets of the b-bit universe (b=2: 256 states, b=3: 65536); every state is rebuilt on real BDDSets in a fresh environment by replaying its BFS path from the empty pair; from every state every operation insert(X,e), union/intersect/complement(X,Y) with (X,Y) in {(A,B),(B,A),(A,A),(B,B)}, empty, universe and the query contains(X,e) is executed on the real sets and then membership of EVERY element of BOTH sets is asked forwards and backwards and compared with the reference masks; plus every operation sequence up to depth 4 (5) for b=2 and 3 (4) for b=3 on one long-lived pair without cloning; wide universes (b = 8, 16, 32, 64): every sequence of <= 2 (3) operations with membership observed on a pool of six elements (0, 1, 2^(b-1), 2^b-1, ...) against a reference that tracks the pool and 'everything else'. distinct = distinct (state, operation) pairs executed + distinct long-lived sequences",
     assumptions: &["reference = bit masks with the usual set operations; complement(X,Y) is set difference X \\ Y as the property states", "bounds: universe of 2^b elements with b <= 3, two sets, sequences on a long-lived pair up to depth 4"],
     max_shards: 64,
     run,
@@ -309,17 +309,145 @@ fn long_lived(ctx: &mut Ctx, bits: usize, depth: usize) {
     }
 }
 
+
+// ---------------------------------------------------------------------------------------
+// wide universes: b = 8, 16, 32, 64 bits, membership observed on a pool of six elements
+
+#[derive(Clone, Copy, PartialEq, Eq, Debug)]
+struct WideRef {
+    /// membership of the pool elements
+    mask: u8,
+    /// does the set contain the elements outside the pool
+    rest: bool,
+}
+
+fn wide_pool(bits: usize) -> Vec<usize> {
+    let top = 1usize << (bits - 1);
+    let all = if bits == 64 { usize::MAX } else { (1usize << bits) - 1 };
+    vec![0, 1, top, all, all / 3, top | 1]
+}
+
+fn wide_history(ctx: &mut Ctx, bits: usize, ops: &[(u8, u8, u8)]) {
+    // op encoding: (kind, x, y): 0 insert pool[y] into set x; 1 union; 2 intersect; 3 complement
+    // (x <- x op y, sets 0/1); 4 empty x; 5 universe x
+    let case = json!({"part": "wide", "bits": bits, "ops": ops.iter().map(|(k, x, y)| vec![*k, *x, *y]).collect::<Vec<_>>()});
+    ctx.begin_case(|| case.clone());
+    ctx.count("wide_sequences", 1);
+    let pool = wide_pool(bits);
+    let sets = fresh(bits);
+    let mut rf = [WideRef { mask: 0, rest: false }; 2];
+    let key = || format!("b={bits}: {:?} (kind,x,y: 0 insert pool[y]={:?}.., 1 union, 2 intersect, 3 complement, 4 empty, 5 universe)", ops, &pool[..2]);
+    for (i, (k, x, y)) in ops.iter().enumerate() {
+        ctx.count("transitions", 1);
+        let (xi, yi) = (*x as usize, *y as usize);
+        let other = rf[yi % 2];
+        match k {
+            0 => rf[xi].mask |= 1 << yi,
+            1 => {
+                rf[xi].mask |= other.mask;
+                rf[xi].rest |= other.rest;
+            }
+            2 => {
+                rf[xi].mask &= other.mask;
+                rf[xi].rest &= other.rest;
+            }
+            3 => {
+                rf[xi].mask &= !other.mask;
+                rf[xi].rest &= !other.rest;
+            }
+            4 => rf[xi] = WideRef { mask: 0, rest: false },
+            _ => rf[xi] = WideRef { mask: 0x3f, rest: true },
+        }
+        let r = guarded(|| match k {
+            0 => {
+                sets[xi].insert(pool[yi]);
+            }
+            1 => {
+                sets[xi].union(&sets[yi % 2]);
+            }
+            2 => {
+                sets[xi].intersect(&sets[yi % 2]);
+            }
+            3 => {
+                sets[xi].complement(&sets[yi % 2]);
+            }
+            4 => {
+                sets[xi].empty();
+            }
+            _ => {
+                sets[xi].universe();
+            }
+        });
+        if let Err(p) = r {
+            ctx.violation(key(), format!("step {i} panicked: {p}"), case.clone());
+            return;
+        }
+        for s in 0..2 {
+            for (pi, e) in pool.iter().enumerate() {
+                let want = (rf[s].mask >> pi) & 1 == 1;
+                match guarded(|| sets[s].contains(*e)) {
+                    Err(p) => {
+                        ctx.violation(key(), format!("contains({}, {e:#x}) panicked after step {i}: {p}", nm(s as u8)), case.clone());
+                        return;
+                    }
+                    Ok(got) if got != want => {
+                        ctx.violation(key(), format!("after step {i}: contains({}, {e:#x}) answered {got}, the reference says {want}", nm(s as u8)), case.clone());
+                        return;
+                    }
+                    _ => {}
+                }
+            }
+        }
+    }
+    ctx.distinct(&(bits, ops));
+}
+
+fn wide_sweep(ctx: &mut Ctx) {
+    let mut alphabet: Vec<(u8, u8, u8)> = vec![];
+    for x in 0..2u8 {
+        for y in 0..6u8 {
+            alphabet.push((0, x, y));
+        }
+        alphabet.push((4, x, 0));
+        alphabet.push((5, x, 0));
+    }
+    for k in 1..=3u8 {
+        for (x, y) in [(0u8, 1u8), (1, 0), (0, 0), (1, 1)] {
+            alphabet.push((k, x, y));
+        }
+    }
+    let depth = if ctx.thorough() { 3 } else { 2 };
+    let mut idx = 0u64;
+    for bits in [8usize, 16, 32, 64] {
+        for len in 1..=depth {
+            crate::enumerate::for_each_seq(alphabet.len(), len, &mut |_, d| {
+                idx += 1;
+                if ctx.mine(idx) {
+                    let ops: Vec<(u8, u8, u8)> = d.iter().map(|i| alphabet[*i]).collect();
+                    wide_history(ctx, bits, &ops);
+                }
+            });
+        }
+    }
+}
+
 fn run(ctx: &mut Ctx) {
     bfs(ctx, 2);
     bfs(ctx, 3);
     long_lived(ctx, 2, if ctx.thorough() { 5 } else { 4 });
     long_lived(ctx, 3, if ctx.thorough() { 4 } else { 3 });
+    wide_sweep(ctx);
     let s2 = ctx.globals.get("states_b2").copied().unwrap_or(0);
     let s3 = ctx.globals.get("states_b3").copied().unwrap_or(0);
     ctx.global("states", s2 + s3);
 }
 
 fn replay(ctx: &mut Ctx, case: &Value) {
+    if case["part"].as_str() == Some("wide") {
+        let ops: Vec<(u8, u8, u8)> = case["ops"].as_array().map(|a| a.iter().map(|o| (o[0].as_u64().unwrap_or(0) as u8, o[1].as_u64().unwrap_or(0) as u8, o[2].as_u64().unwrap_or(0) as u8)).collect()).unwrap_or_default();
+        wide_history(ctx, case["bits"].as_u64().unwrap_or(8) as usize, &ops);
+        return;
+    }
     let bits = case["bits"].as_u64().unwrap_or(2) as usize;
     let ops: Vec<Op> = case["ops"].as_array().map(|a| a.iter().filter_map(|s| s.as_str().and_then(Op::parse)).collect()).unwrap_or_default();
     run_history(ctx, bits, &ops, true);
